@@ -187,7 +187,11 @@ func buildUniverse(t *kernel.Tape) (u *universe) {
 				p.access.BlockedNets = []netip.Prefix{profBlockedNet}
 			}
 			if t.Chance(1, 2, "acc-allownet") {
-				p.access.AllowedNets = []netip.Prefix{profAllowedNet}
+				// The upper half of the blocked network, or a narrow network
+				// that begins where the blocked one begins.
+				p.access.AllowedNets = []netip.Prefix{kernel.Pick(t, []netip.Prefix{
+					profAllowedNet, netip.MustParsePrefix("198.51.100.0/28"),
+				}, "allowed-net")}
 			}
 			if t.Chance(1, 2, "acc-blockasn") {
 				p.access.BlockedASN = asnList(t, []geoip.ASN{64500, 64501})
